@@ -232,8 +232,24 @@ def u2u3(fb, chk, defs):
         call = m.sym.call_at(bb)
         alts = list(ret[2]) if ret[0] == "phi" else [ret]
         from vlint.paths import ret_okness
-        good = [a for a in alts if a[0] == "call" and a[1] == "ioctl_result" and any(s == call for s in subterms(a[2][0]))]
-        others = [a for a in alts if a not in good]
+        def _is_ir(x):
+            return x[0] == "call" and x[1] == "ioctl_result" and any(s == call for s in subterms(x[2][0]))
+        good = [a for a in alts if _is_ir(a)]
+        # `ioctl_result(ret, ..)?; ...; Ok(v)`: the error is the ioctl's (re-raised by `?`), success is returned only after
+        # ioctl_result reported success
+        reraised = [a for a in alts if a[0] == "from_residual" and any(_is_ir(s) for s in subterms(a))]
+        if reraised and not good:
+            dflt = m.sym.defs.get(0, [])
+            ok_after = False
+            for d in dflt:
+                if d[0] != "assign":
+                    continue
+                v = m.sym.rvalue(d[3])
+                if v[0] == "agg" and v[2] == "Ok":
+                    ok_after = any(a[0] == "ok" and _is_ir(a[1]) for a in m.atoms_at(d[1]))
+            if ok_after:
+                good = reraised
+        others = [a for a in alts if a not in good and not (a[0] == "agg" and a[2] == "Ok" and reraised and good is reraised)]
         res_ok = len(good) >= 1 and all(ret_okness(a) is False for a in others)
         if not res_ok:
             probs.append("result is %s, not ioctl_result of the ioctl's return code (early error returns excepted)" % show(ret)[:80])
